@@ -65,8 +65,8 @@ CLAIMED = {
    note=TRUST + "The numeric rate of the token bucket is rate.Limiter's; concurrent attempts are not covered.",
    design="7 (C14)"),
  "C16": dict(
-   text="Deductive lock-set proof: every read and write of the shared session/challenge maps (localAuthData, vipPushCookie, pendingOauth2 under state.Mutex; totpLocalRateLimit under its own mutex; the Okta session cache under its mutex) and of their contents happens with the protecting mutex held (one obligation per access, in every function of /repo that touches them, found by a sweep over go/ssa); taking a mutex forgets what was known about the state it protects, so check-then-act sequences are proved only inside one critical section: the TOTP two-second gate is tested and published in the critical section entered last before a code is evaluated, and an accepted hardware-token challenge is deleted under the mutex before the session is upgraded (C05 clauses).",
-   note=TRUST + "sync.Mutex is a trusted contract (held flag per goroutine; callees are assumed lock-balanced); the configuration loader is exempted by a named clause (state not yet shared). NOT covered, and declared out of reach of per-function contracts: lost updates between LoadUserProfile and SaveUserProfile of concurrent requests (no transaction spans them), simultaneous presentation of one one-time value to two requests whose lookup and consumption are separate critical sections, unlocked reads of state.Signer.",
+   text="Deductive lock-set proof: every read and write of the shared session/challenge maps (localAuthData, vipPushCookie, pendingOauth2 under state.Mutex; totpLocalRateLimit under its own mutex; the Okta session cache under its mutex) and of their contents happens with the protecting mutex held (one obligation per access, in every function of /repo that touches them, found by a sweep over go/ssa); taking a mutex forgets what was known about the state it protects, so check-then-act sequences are proved only inside one critical section: the TOTP two-second gate is tested and published in the critical section entered last before a code is evaluated, and a hardware-token challenge is taken out of the shared map in the critical section that reads it, before the answer is verified (so a second presentation, however interleaved, finds none).",
+   note=TRUST + "sync.Mutex is a trusted contract (held flag per goroutine; callees are assumed lock-balanced); the configuration loader is exempted by a named clause (state not yet shared). NOT covered, and declared out of reach of per-function contracts: lost updates between LoadUserProfile and SaveUserProfile of concurrent requests (no transaction spans them), simultaneous presentation of the one-time values that are not kept in a mutex-protected map (bootstrap OTP in the profile store, the OAuth2 state whose single use the provider enforces), unlocked reads of state.Signer.",
    design="7 (C16)"),
  "C17": dict(
    text="Deductive proof (weakest preconditions over go/ssa, SMT) that getLoginDestination returns only same-origin paths as the property defines them, "
